@@ -523,4 +523,23 @@ theorem uvarintF_length_le (f : Nat) : ∀ x, (uvarintF f x).length ≤ f + 1 :=
     · simp
     · simp only [List.length_cons]; have := ih (x / 128); omega
 
+theorem uvarintF_length_bound (f : Nat) : ∀ x, x < 2 * 128 ^ f → (uvarintF (f + 1) x).length ≤ f + 1 := by
+  induction f with
+  | zero =>
+    intro x hx
+    have hx128 : x < 128 := by simp at hx; omega
+    simp [uvarintF, hx128]
+  | succ f ih =>
+    intro x hx
+    rw [uvarintF]; split
+    · simp
+    · have hd : x / 128 < 2 * 128 ^ f := by rw [Nat.pow_succ] at hx; exact Nat.div_lt_of_lt_mul (by omega)
+      simp only [List.length_cons]; have := ih (x / 128) hd; omega
+
+theorem putUVarint_length_pos (x : Nat) : 1 ≤ (putUVarint x).length := by
+  unfold putUVarint
+  cases h : uvarintF 10 x with
+  | nil => exact absurd h (uvarintF_ne_nil 10 x)
+  | cons a l => simp
+
 end Lemmas.C09
